@@ -311,6 +311,8 @@ class AnnotationDAGBuilder:
 
         if output_node is None:
             output_node = input_node
+            self.validate_node(input_node)
+            self._get_input_marks_map(input_node)
             self._dag.add_node(get_node_id(input_node))
         else:
             self._traverse_breadth_first_to_dag(input_node, output_node)
